@@ -55,6 +55,17 @@ var mergeConfigsSpec = &decideSpec{
 	ignore: []string{"log", "fieldLog"},
 }
 
+// Config.GetReplacement: the two-level lookup of a replace-type entry (plain translation with godecide.go)
+var getReplacementSpec = &decideSpec{
+	file: "config/config.go", recv: "Config", fn: "GetReplacement", lean: "getReplacement", plain: true,
+	params: "{M R : Type} (lookupPkg : String → Option M) (lookupType : M → String → Option R) (pkgPath typeName : String)",
+	result: "Option R",
+	atoms: map[string]string{
+		"c.ReplaceType[pkgPath]": "lookupPkg pkgPath", "pkgMap == nil": "v_pkgMap.isNone", "nil": "none",
+		"pkgMap[typeName]": "v_pkgMap.bind (fun m => lookupType m typeName)",
+	},
+}
+
 // ---- mergeStringMaps ----
 
 type mapTr struct {
@@ -200,7 +211,12 @@ func init() {
 		if err != nil {
 			m = fmt.Sprintf("/-- translation failed: %s -/\ndef mergeStringMapsStep : Nat := (show Nat from %s)\n", strings.ReplaceAll(err.Error(), "-/", "- /"), leanStr(err.Error()))
 		}
-		b.WriteString(m + "\nend Mockery.Generated.Merge\n")
+		b.WriteString(m + "\n")
+		g, err := translateDecide(src, getReplacementSpec)
+		if err != nil {
+			g = fmt.Sprintf("/-- translation failed: %s -/\ndef getReplacement : Nat := (show Nat from %s)\n", strings.ReplaceAll(err.Error(), "-/", "- /"), leanStr(err.Error()))
+		}
+		b.WriteString(g + "\nend Mockery.Generated.Merge\n")
 		return b.String(), nil
 	})
 }
